@@ -96,8 +96,11 @@ class QGen:
         name = only or self.r.choice(names)
         c = COLLECTIONS[self.b][name]
         bank = self.r.choice(c["banks"])
-        if self.r.random() < 0.12:
+        if self.r.random() < 0.10:
             bank = "prod"  # the same bank name asked for as different collection types (the store is keyed by type AND bank)
+        prev = [o["bank"] for o in self.occ if o["coll"] != name]
+        if prev and self.r.random() < 0.15:
+            bank = self.r.choice(prev)  # deliberately the bank name another collection of this query already uses
         self.occ.append({"coll": name, "bank": bank, "type": c["ctype"], "uncond": self.uncond})
         return f'{evar}.{name}("{bank}")', c["etype"]
 
